@@ -370,6 +370,12 @@ class SE:
                     if a[0] == 'int' and b[0] == 'int':
                         return cont(s2, I(a[1] + b[1] if isinstance(e.op, ast.Add) else a[1] - b[1]))
                     if a[0] == 'str' or b[0] == 'str': return cont(s2, ('str', '?'))
+                    if getattr(self.spec, 'int_slots', False) and any(x[0] == 'ref' and x[1].eq(c.null) for x in (a, b)):
+                        return self.exit(s2, 'TypeError')          # None + int
+                    if {a[0], b[0]} == {'int', 'ref'} and getattr(self.spec, 'int_slots', False):
+                        # a scalar slot that holds an int (documented type, precondition of the spec): int arithmetic on its value
+                        ai = a[1] if a[0] == 'int' else c.intval(a[1]); bi = b[1] if b[0] == 'int' else c.intval(b[1])
+                        return cont(s2, I(ai + bi if isinstance(e.op, ast.Add) else ai - bi))
                     raise Unsupported('binop on %s,%s' % (a[0], b[0]))
                 self.ev(s, e.right, k2)
             return self.ev(st, e.left, k)
